@@ -1,5 +1,5 @@
 //verif:pkg internal/spynode
-//verif:kit memstore nodekit synckit
+//verif:kit memstore nodekit synckit interleave
 package spynode
 
 // C02 — the stored chain stays hash-linked and grows only at its tip for any
@@ -48,6 +48,7 @@ func VerifHarness_C02_links() {
 	}
 	steps := []string{"e0", "e1", "e2", "e3"}
 	lastAnnounced := -1
+	interleaves := 1
 	for e := 0; e < nEvents; e++ {
 		mark := len(rec.events)
 		kind := verifrt.Choose(steps[e]+".event", 3)
@@ -68,7 +69,21 @@ func VerifHarness_C02_links() {
 			verifrt.Assert(!panicked, "C02.block.no-panic")
 		case 2:
 			var perr error
+			// the message-handling goroutine may handle a headers message between ProcessBlock's
+			// "is this the next block" check and the moment it adds the header (once per history)
+			if interleaves > 0 {
+				vkInterleave = func(point string) {
+					if interleaves > 0 && verifrt.Choose(steps[e]+".headers-handled-inside-ProcessBlock", 2) == 1 {
+						interleaves--
+						names := headerLists[verifrt.Choose(steps[e]+".interleaved-headers", len(headerLists))]
+						verifrt.RunUntilBlocked(func() { node.handleMessage(ctx, tree.headerMsg(names...)) })
+						verifrt.Note("headers %v handled at %s", names, point)
+						verifrt.Reach("C02.interleaved")
+					}
+				}
+			}
 			panicked, what := verifrt.Catch(func() { perr = vkProcessRun(ctx, node) })
+			vkInterleave = nil
 			verifrt.Note("processing run: panic=%v %s err=%v", panicked, what, perr)
 			verifrt.Sig("process", "panic")
 			verifrt.Assert(!panicked, "C02.process.no-panic")
@@ -115,4 +130,51 @@ func VerifHarness_C02_links() {
 		}
 	}
 	verifrt.Reach("C02.links.done")
+}
+
+// VerifHarness_C02_race: a1, a2 are stored, the body of a3 is buffered; while ProcessBlock(a3) is
+// between its next-block check and the moment it adds the header, the message-handling goroutine
+// handles a headers message (any list of the tree, in particular a fork off a1 that reverts a2).
+func VerifHarness_C02_race() {
+	ctx := context.Background()
+	k, err := vkNewNode(ctx, nil)
+	verifrt.Assert(err == nil, "C02.kit.node-loads")
+	node := k.node
+	node.state.SetVersionReceived()
+	tree := vkNewTree(*node.blocks.LastHash())
+	tree.add("a1", "", nil)
+	tree.add("a2", "a1", []*wire.MsgTx{vkTx(1, []int{0}, true)})
+	tree.add("a3", "a2", nil)
+	tree.add("b2", "a1", []*wire.MsgTx{vkTx(2, []int{0}, true)})
+	tree.add("b3", "b2", nil)
+	node.handleMessage(ctx, tree.headerMsg("a1", "a2", "a3"))
+	vkOutgoing(node)
+	node.handleMessage(ctx, tree.blocks["a1"])
+	node.handleMessage(ctx, tree.blocks["a2"])
+	verifrt.Assume(vkProcessRun(ctx, node) == nil)
+	verifrt.Assume(node.blocks.LastHeight() == 2)
+	node.handleMessage(ctx, tree.blocks["a3"])
+	lists := [][]string{{"b2"}, {"b2", "b3"}, {"a3"}, {"a2"}, {}}
+	names := lists[verifrt.Choose("interleaved-headers", len(lists))]
+	done := false
+	vkInterleave = func(point string) {
+		if !done {
+			done = true
+			verifrt.RunUntilBlocked(func() { node.handleMessage(ctx, tree.headerMsg(names...)) })
+			verifrt.Reach("C02.race.interleaved")
+		}
+	}
+	perr := vkProcessRun(ctx, node)
+	vkInterleave = nil
+	verifrt.Note("headers %v handled inside ProcessBlock(a3): err=%v, height %d", names, perr, node.blocks.LastHeight())
+	vkChainLinked(ctx, node, "race")
+	for _, name := range tree.names {
+		hash := tree.hashOf(name)
+		if h, ok := node.blocks.Height(&hash); ok {
+			at, herr := node.blocks.Hash(ctx, h)
+			verifrt.Sig("race", "inverse")
+			verifrt.Assert(herr == nil && at != nil && *at == hash, "C02.lookup.hash-to-height-is-inverse-of-height-to-hash")
+		}
+	}
+	verifrt.Reach("C02.race.done")
 }
